@@ -5,8 +5,7 @@
 // DataKeeper::{result_states_count, result_trace_next_pos} (data_keeper/keeper.rs), ExecutedState::par
 // (interpreter-data executed_state/impls.rs)  --  C10.V1 / C10.V2, C01 (panic freedom under the stated preconditions).
 //
-// Trusted part of this file: the TracePos shim (verbatim from slider.rs, plus `From<TracePos> for usize`
-// which mirrors trace_pos.rs `value.0 as Self`), the ExecutionTrace shim (a Vec newtype whose `set_at`
+// Trusted part of this file: the TracePos shim (verbatim from slider.rs), the ExecutionTrace shim (a Vec newtype whose `set_at`
 // stands for `IndexMut<TracePos>` = `&mut self.0[usize::from(index)]`, panicking out of range, hence a
 // precondition), opaque payload types of the ExecutedState variants that are not touched here, opaque
 // MergeCtx / BiHashMap (fields of DataKeeper that the lifted code never mentions: kept for the frame).
